@@ -448,6 +448,11 @@ class WorkTree:
                             del index[b"/".join(parts[:i])]
                         except KeyError:
                             pass
+                    # ... nor can what used to be below this path when it
+                    # was a directory
+                    below = tree_path + b"/"
+                    for stale in [p for p in index if p.startswith(below)]:
+                        del index[stale]
                     index[tree_path] = index_entry_from_stat(st, blob.id)
         index.write()
 
